@@ -114,6 +114,10 @@ pub fn render_file(src: &Value) -> String {
             "blank" => texts.push(String::new()),
             "remark" => texts.push(format!("# {}", ln["note"].as_str().unwrap_or(""))),
             "header" => texts.push("vector, tipo, src_dst, valores".to_string()),
+            "meta" => {
+                let t = format!("#META {}: {}", ln["c"][0].as_str().unwrap_or(""), ln["c"][1].as_str().unwrap_or(""));
+                texts.push(if ln["pad"].as_bool().unwrap_or(false) { format!("  \t{}  \t ", t) } else { t });
+            }
             "comp" => {
                 let c = AbsComp::from_json(&ln["c"]);
                 let pad = ln["pad"].as_bool().unwrap_or(false);
